@@ -357,8 +357,8 @@ func (s *synth) fillStruct(v reflect.Value, depth int) {
 		}
 	}
 	// information elements: keep Len consistent with Buffer most of the time
-	lenF := v.FieldByName("Len")
-	bufF := v.FieldByName("Buffer")
+	lenF := directField(v, "Len")
+	bufF := directField(v, "Buffer")
 	if lenF.IsValid() && bufF.IsValid() && bufF.Kind() == reflect.Slice && lenF.CanSet() && s.r.Chance(80) {
 		switch lenF.Kind() {
 		case reflect.Uint8:
@@ -408,4 +408,19 @@ func SynthArgs(r *Rng, ft reflect.Type, names []string, skipFirst int) ([]reflec
 func SynthValue(r *Rng, t reflect.Type, name string) (reflect.Value, bool) {
 	s := &synth{r: r, sibling: -1}
 	return s.value(t, name, 0)
+}
+
+// directField returns the field called name declared directly in the struct
+// (reflect's FieldByName walks through embedded pointers and panics on nil).
+func directField(v reflect.Value, name string) reflect.Value {
+	if v.Kind() != reflect.Struct {
+		return reflect.Value{}
+	}
+	t := v.Type()
+	for i := 0; i < t.NumField(); i++ {
+		if t.Field(i).Name == name {
+			return v.Field(i)
+		}
+	}
+	return reflect.Value{}
 }
